@@ -1,5 +1,6 @@
 // C13 — validator reshuffling is deterministic.
-// Monitor shape: metamorphic. Every generated input is evaluated 6 times by the real shuffler: once as
+// Monitor shape: metamorphic. Every generated input is evaluated 9 times by the real shuffler (the last 3
+// on instances with a history of other epochs, see runOnVeteran): once as
 // the reference (maps filled in ascending shard order) and five more times concurrently from five
 // goroutines, each with a fresh shuffler instance, fresh validator objects and input maps rebuilt
 // in a different insertion order / initial capacity / after unrelated insert+delete traffic (so that
@@ -12,36 +13,95 @@ import (
 	"sync"
 
 	logger "github.com/ElrondNetwork/elrond-go-logger"
+	"github.com/ElrondNetwork/elrond-go/sharding"
 	sg "verif/internal/shufflegen"
 	"verif/internal/vk"
 )
 
 const variants = 5
+const veterans = 3
+
+// runOnVeteran evaluates the input on a shuffler instance that already processed 1-3 other calls at
+// other epochs (the same validators at another epoch with another randomness, or unrelated inputs):
+// mode 0 warms up at epochs at/above the highest EpochEnable (or above the input's epoch), mode 1 at
+// epochs below the lowest EpochEnable (or below the input's epoch), mode 2 at random epochs.
+func runOnVeteran(in *sg.Input, rng *vk.Rand, mode int) (*sg.Out, []uint32) {
+	sa, _ := in.Build(nil)
+	sh, err := sharding.NewHashValidatorsShuffler(sa)
+	if err != nil {
+		return &sg.Out{Err: "constructor: " + err.Error()}, nil
+	}
+	lo, hi := uint32(0), uint32(0)
+	for i, c := range in.MaxNodesCfg {
+		if i == 0 || c.EpochEnable < lo {
+			lo = c.EpochEnable
+		}
+		if c.EpochEnable > hi {
+			hi = c.EpochEnable
+		}
+	}
+	if len(in.MaxNodesCfg) == 0 {
+		lo, hi = in.Epoch, in.Epoch
+	}
+	var epochs []uint32
+	for i, n := 0, 1+rng.Intn(3); i < n; i++ {
+		var e uint32
+		switch mode {
+		case 0:
+			e = hi + uint32(rng.Intn(3))
+			if rng.Chance(1, 4) && len(in.MaxNodesCfg) > 0 {
+				e = in.MaxNodesCfg[rng.Intn(len(in.MaxNodesCfg))].EpochEnable
+			}
+		case 1:
+			e = uint32(rng.Intn(int(lo) + 1))
+			if e > 0 && rng.Bool() {
+				e--
+			}
+		default:
+			e = uint32(rng.Intn(16))
+		}
+		epochs = append(epochs, e)
+		src := in
+		if rng.Bool() {
+			src = sg.Gen(rng.Fork(), sg.Opts{})
+		}
+		_, wargs := src.Build(rng.Fork())
+		wargs.Epoch = e
+		wargs.Rand = rng.Bytes(32)
+		_, _ = sh.UpdateNodeLists(wargs)
+	}
+	_, args := in.Build(rng.Fork())
+	res, err := sh.UpdateNodeLists(args)
+	return sg.Flatten(res, err), epochs
+}
 
 func main() {
 	_ = logger.SetLogLevel("*:NONE")
 	r := vk.Start("C13")
-	r.Rule("same generator as C12 (1-4 shards + metachain, sizes 0-12 around the minimums, new nodes, leaving lists with eligible/waiting/unknown/new/duplicated keys, epochs around the activation epochs, both distributors, MaxNodesChangeConfig variants); each input evaluated 6x (reference + 5 concurrent re-evaluations with rebuilt maps and fresh shufflers); non-trivial = the reference call returned a result for a non-empty validator set; distinct = distinct input signatures (shards, minimums, flags, max swap, per-shard sizes, new count, leaving composition)")
+	r.Rule("same generator as C12 (1-4 shards + metachain, sizes 0-12 around the minimums, new nodes, leaving lists with eligible/waiting/unknown/new/duplicated keys, epochs around the activation epochs, both distributors, MaxNodesChangeConfig variants); most inputs with 1-3 MaxNodesChangeConfig entries (EpochEnable 0-12, so the first one is usually > 0); each input evaluated 9x: reference, 5 concurrent re-evaluations with rebuilt maps and fresh shufflers, and 3 on veteran shuffler instances that first processed 1-3 other calls (same validators or unrelated inputs) at epochs at/above the highest EpochEnable, below the lowest, or random; non-trivial = the reference call returned a result for a non-empty validator set; distinct = distinct input signatures (shards, minimums, flags, max swap, per-shard sizes, new count, leaving composition)")
 	r.Assume("the order of validators inside each per-shard list, of the new list and of the leaving lists is part of the input (only the maps are rebuilt)", "MaxNodesChangeConfig lists are permuted only when their EpochEnable values are distinct")
 	r.MinShapes(200)
 	n := r.N(6000, 450000)
 
 	r.Parallel(n, func(c *vk.Case) {
-		in := sg.Gen(c.Rng, sg.Opts{})
+		in := sg.Gen(c.Rng, sg.Opts{CfgHeavy: true})
 		ref := in.Run(nil)
-		outs := make([]*sg.Out, variants)
-		orders := make([]*vk.Rand, variants)
+		outs := make([]*sg.Out, variants+veterans)
+		warm := make([][]uint32, variants+veterans)
+		orders := make([]*vk.Rand, variants+veterans)
 		for i := range orders {
 			orders[i] = c.Rng.Fork()
 		}
 		var wg sync.WaitGroup
-		for i := 0; i < variants; i++ {
+		for i := 0; i < variants+veterans; i++ {
 			wg.Add(1)
 			go func(i int) {
 				defer wg.Done()
 				p, v, st := vk.Guard(func() {
 					if i == 0 {
 						outs[i] = in.Run(nil) // same construction again: only the runtime's map randomisation differs
+					} else if i >= variants {
+						outs[i], warm[i] = runOnVeteran(in, orders[i], i-variants)
 					} else {
 						outs[i] = in.Run(orders[i])
 					}
@@ -52,7 +112,26 @@ func main() {
 			}(i)
 		}
 		wg.Wait()
-		r.Count("shuffler_calls", variants+1)
+		r.Count("shuffler_calls", variants+veterans+1)
+		for i := variants; i < variants+veterans; i++ {
+			r.Count("warm_up_calls_on_veteran_instances", len(warm[i]))
+			below, above := false, false
+			for _, e := range warm[i] {
+				if in.MaxSwapAt(e) != in.MaxSwap() {
+					if e > in.Epoch {
+						above = true
+					} else {
+						below = true
+					}
+				}
+			}
+			if above {
+				r.Count("veterans_that_had_another_NodesToShuffle_active_at_a_higher_epoch", 1)
+			}
+			if below {
+				r.Count("veterans_that_had_another_NodesToShuffle_active_at_a_lower_epoch", 1)
+			}
+		}
 		total := len(in.New)
 		moving := 0
 		for _, s := range in.Shards() {
@@ -64,6 +143,11 @@ func main() {
 		for i, o := range outs {
 			r.Eval(1)
 			comp, d := sg.Diff(ref, o)
+			if comp != "" && i >= variants {
+				r.Violation(c.Idx, "nondeterministic-"+comp+" class=instance-history", fmt.Sprintf("a shuffler instance that processed epochs %v before gives another result than a fresh instance for the same arguments (epoch %d): %s", warm[i], in.Epoch, d),
+					map[string]interface{}{"input": in.Dump(), "reference_fresh_instance": ref.Dump(), "veteran_instance": o.Dump(), "epochs_processed_before": warm[i]})
+				break
+			}
 			if comp != "" {
 				r.Violation(c.Idx, "nondeterministic-"+comp, fmt.Sprintf("evaluation %d differs from the reference: %s", i+1, d),
 					map[string]interface{}{"input": in.Dump(), "reference": ref.Dump(), "other": o.Dump(), "evaluation": i + 1})
